@@ -37,3 +37,61 @@ func (y *Yielder) Hook(point string, obj any) {
 		runtime.Gosched()
 	}
 }
+
+// Parker is the "park mode" of the verification hooks (schedule replay): ONE goroutine (the victim) is stopped at the
+// j-th hook point it reaches; the driver then lets the other goroutines run (to completion, or until they block on
+// something the victim holds) and releases the victim. Enumerating j = 1..H explores every placement of one
+// preemption at a lock boundary / check-then-act window of the library - the schedules of the Level-2 models -
+// deterministically.
+type Parker struct {
+	victim  uint64 // goroutine id
+	at      int64
+	n       int64
+	parked  chan struct{}
+	release chan struct{}
+	Point   string
+	once    int32
+}
+
+func NewParker(at int) *Parker {
+	return &Parker{at: int64(at), parked: make(chan struct{}), release: make(chan struct{})}
+}
+
+func (p *Parker) SetVictim(gid uint64) { atomic.StoreUint64(&p.victim, gid) }
+
+// Hits is the number of hook points the victim has reached.
+func (p *Parker) Hits() int { return int(atomic.LoadInt64(&p.n)) }
+
+func (p *Parker) Parked() <-chan struct{} { return p.parked }
+
+func (p *Parker) Release() {
+	if atomic.CompareAndSwapInt32(&p.once, 0, 1) {
+		close(p.release)
+	}
+}
+
+func (p *Parker) Hook(point string, obj any) {
+	v := atomic.LoadUint64(&p.victim)
+	if v == 0 || Gid() != v {
+		return
+	}
+	if atomic.AddInt64(&p.n, 1) == p.at {
+		p.Point = point
+		close(p.parked)
+		<-p.release
+	}
+}
+
+// Gid returns the id of the calling goroutine.
+func Gid() uint64 {
+	var buf [64]byte
+	n := runtime.Stack(buf[:], false)
+	var id uint64
+	for _, c := range buf[10:n] {
+		if c < '0' || c > '9' {
+			break
+		}
+		id = id*10 + uint64(c-'0')
+	}
+	return id
+}
